@@ -281,6 +281,9 @@ func enumerate(store string, depth, shard, of int, seedsChecked bool) localResul
 type hqFake struct {
 	seen map[string]string
 	fail bool
+	// reversed: the not-seen URLs are listed in the reverse of the request order (the service
+	// promises no order; an index- or hash-ordered answer is as legitimate as a filtered copy)
+	reversed bool
 }
 
 func (h *hqFake) RoundTrip(req *http.Request) (*http.Response, error) {
@@ -300,18 +303,79 @@ func (h *hqFake) RoundTrip(req *http.Request) (*http.Response, error) {
 	if len(out) == 0 {
 		return &http.Response{StatusCode: 204, Status: "204 No Content", Body: io.NopCloser(bytes.NewReader(nil)), Header: http.Header{}, Request: req}, nil
 	}
+	if h.reversed {
+		for i, j := 0, len(out)-1; i < j; i, j = i+1, j-1 {
+			out[i], out[j] = out[j], out[i]
+		}
+	}
 	ob, _ := json.Marshal(out)
 	return &http.Response{StatusCode: 200, Status: "200 OK", Body: io.NopCloser(bytes.NewReader(ob)), Header: http.Header{}, Request: req}, nil
 }
 
-// runHQ: the same histories against crawl HQ's seencheck (seeds themselves are never sent).
-func runHQ(depth, shard, of int) localResult {
+func setupHQ() *hqFake {
 	fake := &hqFake{seen: map[string]string{}}
 	u, _ := url.Parse("http://hq.invalid/api/projects/verif/seencheck")
 	config.VerifSet(&config.Config{UseHQ: true, UseSeencheck: true, UserAgent: "verif", NoStdoutLogging: true, NoStderrLogging: true, NoFileLogging: true,
 		ExcludeHosts: []string{"archive.org", "archive-it.org"}})
 	hq.VerifSetClient(&gocrawlhq.Client{Project: "verif", SeencheckEndpoint: u, HTTPClient: &http.Client{Transport: fake}})
+	return fake
+}
+
+// replayHistory re-runs one recorded history on its store and reports whether it still disagrees
+// with the reference.
+func replayHistory(f *seqFailure) (string, bool) {
+	seedsChecked := false
+	switch f.Store {
+	case "local":
+		dir, err := os.MkdirTemp(os.Getenv("VERIF_TMP"), "c08-replay-")
+		if err != nil {
+			hkit.EngineError("%v", err)
+		}
+		defer os.RemoveAll(dir)
+		config.VerifSet(&config.Config{JobPath: dir, UseSeencheck: true, UserAgent: "verif", NoStdoutLogging: true, NoStderrLogging: true, NoFileLogging: true,
+			ExcludeHosts: []string{"archive.org", "archive-it.org"}})
+		if err := seencheck.Start(dir); err != nil {
+			hkit.EngineError("%v", err)
+		}
+		defer seencheck.Close()
+		seedsChecked = true
+	default:
+		fake := setupHQ()
+		fake.reversed = f.Store == "hq-reversed-answer"
+		fake.fail = strings.Contains(f.Sig, "hq-failed")
+	}
+	ref := refModel{}
+	for i, c := range f.History {
+		want, _ := ref.check(c, seedsChecked)
+		got, sts := runCall(c, "replay")
+		for k := range got {
+			if strings.Contains(f.Sig, "hq-failed") {
+				dupInCall := k == 1 && urlAlpha[c.Nodes[0].URL].Class == urlAlpha[c.Nodes[1].URL].Class
+				if !got[k] && !dupInCall {
+					return fmt.Sprintf("HQ answered 500, yet %s %q was not fetched (status %s)", c.Nodes[k].Pos, urlAlpha[c.Nodes[k].URL].Text, sts[k]), true
+				}
+				continue
+			}
+			if want[k] != got[k] {
+				return fmt.Sprintf("call %d node %d (%s %q): reference says built=%v, Zeno: built=%v (status %s)", i+1, k, c.Nodes[k].Pos, urlAlpha[c.Nodes[k].URL].Text, want[k], got[k], sts[k]), true
+			}
+		}
+	}
+	return "", false
+}
+
+// runHQ: the same histories against crawl HQ's seencheck (seeds themselves are never sent).
+func runHQ(depth, shard, of int) localResult {
+	fake := setupHQ()
 	res := enumerate("hq", depth, shard, of, false)
+	// the same histories with the answer listed in reverse order
+	fake.reversed, fake.seen = true, map[string]string{}
+	rev := enumerate("hq-reversed-answer", depth, shard, of, false)
+	fake.reversed = false
+	res.Histories += rev.Histories
+	res.Checks += rev.Checks
+	res.Skipped += rev.Skipped
+	res.Failures = append(res.Failures, rev.Failures...)
 	// a failing HQ answer must never cause a skip ("skipped only if the store really reported it as seen")
 	fake.fail = true
 	alpha := callAlphabet()
